@@ -94,6 +94,7 @@ type lockWait struct {
 }
 
 type lockAnalysis struct {
+	atomicWrites []lockAccess // Store / Swap / CompareAndSwap / Add on atomic fields of the tracked structs, with the locks certainly held
 	nbComm            map[token.Pos]bool // receive / send expressions that are cases of a select with a default clause
 	noEdges, noAccess bool // walking a deferred literal at its defer statement (accesses only) / at a return (edges only)
 	edges    []lockEdge
@@ -314,6 +315,19 @@ func (w *walker) call(c *ast.CallExpr, st lockState, deferred bool) {
 			st[s] = lvl
 		}
 		return
+	}
+	if sel, ok := c.Fun.(*ast.SelectorExpr); ok && !mayMode && w.la.record && !w.la.noAccess {
+		switch sel.Sel.Name {
+		case "Store", "Swap", "CompareAndSwap", "Add":
+			if inner, ok := sel.X.(*ast.SelectorExpr); ok {
+				if s := w.la.typeOf(inner.X, w.env); s != "" {
+					if t, isField := w.la.fields[s][inner.Sel.Name]; isField && strings.HasPrefix(t, "atomic.") {
+						w.la.atomicWrites = append(w.la.atomicWrites, lockAccess{Struct: s, Field: inner.Sel.Name, Func: w.fn, Write: true,
+							Held: st[s], InGo: w.inGo, Line: w.la.p.fset.Position(c.Pos()).Line, File: shortFile(w.la.p.fset.Position(c.Pos()).Filename)})
+					}
+				}
+			}
+		}
 	}
 	if sel, ok := c.Fun.(*ast.SelectorExpr); ok {
 		if inner, ok := sel.X.(*ast.SelectorExpr); ok && inner.Sel.Name == "kv" && w.la.typeOf(inner.X, w.env) != "" {
@@ -700,6 +714,7 @@ func genLocks(p *pkgInfo, out string) {
 	run := func(record bool) {
 		la.record = record
 		la.accesses = nil
+		la.atomicWrites = nil
 		la.edges = nil
 		la.waits = nil
 		la.callSeen = map[string][]lockState{}
@@ -780,6 +795,7 @@ func genLocks(p *pkgInfo, out string) {
 	}
 	run(true)
 	must := la.accesses
+	mustAtomic := la.atomicWrites
 
 	// second pass: which locks are *possibly* held (union at joins, entry = union over call sites)
 	mayMode = true
@@ -893,6 +909,27 @@ func genLocks(p *pkgInfo, out string) {
 		if !seenE[r] {
 			seenE[r] = true
 			rows = append(rows, r)
+		}
+	}
+	b.WriteString(strings.Join(rows, ",\n"))
+	b.WriteString("]\n\n")
+	b.WriteString("/-- Writes (Store / Swap / CompareAndSwap / Add) to the atomic fields that make up a status snapshot, with the election's mutex certainly held (2 = exclusively): (field, function, held, line). -/\n")
+	b.WriteString("def atomicWrites : List (String × String × Nat × Nat) := [\n")
+	rows = nil
+	sort.SliceStable(mustAtomic, func(i, j int) bool {
+		a, c := mustAtomic[i], mustAtomic[j]
+		if a.File != c.File {
+			return a.File < c.File
+		}
+		return a.Line < c.Line
+	})
+	for _, a := range mustAtomic {
+		if a.Struct != "kvElection" || a.Func == "newKVElection" {
+			continue
+		}
+		switch a.Field {
+		case "isLeader", "state", "token", "leaderID":
+			rows = append(rows, fmt.Sprintf("  (%s, %s, %d, %d)", leanStr(a.Field), leanStr(a.Func), a.Held, a.Line))
 		}
 	}
 	b.WriteString(strings.Join(rows, ",\n"))
